@@ -489,6 +489,10 @@ type vfC04Req struct {
 	Size int64      `json:"size"`
 	KVs  []vfc20.KV `json:"kvs,omitempty"`
 	Opts vfC04Opts  `json:"opts"`
+	// session 4 (vf_c04x_test.go): xparse | xchan (MaxBuf, FailAux), lzfx (Segs = "hex*count,…", Size = declared length)
+	MaxBuf  int    `json:"maxbuf,omitempty"`
+	FailAux bool   `json:"failaux,omitempty"`
+	Segs    string `json:"segs,omitempty"`
 }
 
 type vfC04Resp struct {
@@ -555,6 +559,8 @@ func vfC04WorkerLoop(t *testing.T) {
 					rp.Err = rp.Err[:300]
 				}
 			}
+		default:
+			rp = vfC04XWorker(rq, data)
 		}
 		b, _ := json.Marshal(rp)
 		fmt.Printf("C04R %s\n", b)
@@ -691,11 +697,23 @@ type vfC04Opts struct {
 	// snapshot of realistic length, whose values are decoded and replayed long before the checksum is reached
 	DropAt int `json:",omitempty"` // > 0: the target closes the connection that sends request #DropAt-1 (no reply; other connections live on)
 	Msg    int `json:",omitempty"` // which real refusal text the injected error reply carries (vfC04FailMsgs / vfC04InnerMsgs)
+	MaxBuf int `json:",omitempty"` // > 0: the value-chunking threshold (maxBinEntryBuffer) for this run — split hashes
+	Pol    string `json:",omitempty"` // keyExists policy: "" = replace | ignore | error
 }
 
 // the texts a real target refuses a request with (a tolerance keyed on a message shows up only with the real message)
 var vfC04FailMsgs = []string{"ERR injected by the C04 harness", "OOM command not allowed when used memory > 'maxmemory'.",
-	"READONLY You can't write against a read only replica.", "WRONGTYPE Operation against a key holding the wrong kind of value"}
+	"READONLY You can't write against a read only replica.", "WRONGTYPE Operation against a key holding the wrong kind of value",
+	// the families a target answers with while it cannot serve for a moment, or that a client may want to treat specially
+	// (session 4, seed C04-r5-m1: a retry keyed on the reply text must not turn a half-written value into a success)
+	"LOADING Redis is loading the dataset in memory", "BUSY Redis is busy running a script. You can only call SCRIPT KILL or SHUTDOWN NOSAVE.",
+	"TRYAGAIN Multiple keys request during rehashing of slot", "CLUSTERDOWN The cluster is down",
+	"MISCONF Redis is configured to save RDB snapshots, but it's currently unable to persist to disk.", "NOAUTH Authentication required.",
+	"MOVED 3999 127.0.0.1:6381", "ASK 3999 127.0.0.1:6381", "NOREPLICAS Not enough good replicas to write.", "MASTERDOWN Link with MASTER is down and replica-serve-stale-data is set to 'no'."}
+
+// the keyExists policies (config.ReplayConfig.KeyExists); the target is empty at the start of every run, so the intact
+// replay is the same under all three — what differs is what a RETRY of a half-applied entry does
+var vfC04Pols = []string{"replace", "ignore", "error"}
 var vfC04InnerMsgs = []string{"ERR injected inside EXEC by the C04 harness", "ERR Bad data format",
 	"BUSYKEY Target key name already exists.", "OOM command not allowed when used memory > 'maxmemory'."}
 
@@ -721,6 +739,10 @@ func (o vfC04Opts) String() string {
 }
 
 func vfC04Send(t *testing.T, kvs []vfc20.KV, data []byte, size int64, o vfC04Opts) (res vfC04Res) {
+	if o.MaxBuf > 0 {
+		oldBuf := rdb.VerifSetMaxBinEntryBuffer(o.MaxBuf)
+		defer rdb.VerifSetMaxBinEntryBuffer(oldBuf)
+	}
 	oldPipe := config.RdbPipeSize
 	config.RdbPipeSize = o.PipeSize
 	defer func() { config.RdbPipeSize = oldPipe }()
@@ -745,6 +767,9 @@ func vfC04Send(t *testing.T, kvs []vfc20.KV, data []byte, size int64, o vfC04Opt
 		tg := vfdoubles.NewTarget()
 		tg.SetNow(time.Now().UnixMilli())
 		c := &vfc20.Case{Mode: "wplain", Pol: "replace", Restore: o.Restore, MaxBulk: 1 << 29, Ver: "7.0.0"}
+		if o.Pol != "" {
+			c.Pol = o.Pol
+		}
 		if o.Bisync {
 			c.Mode = "bisync"
 		}
@@ -882,7 +907,13 @@ func vfC04Send(t *testing.T, kvs []vfc20.KV, data []byte, size int64, o vfC04Opt
 		res.AllApplied = true
 		for _, kv := range kvs {
 			want := vfc20.ExpectVal(kv, o.Restore, vfc20.BubbleNowMs)
-			if !vfc20.SameVal(want, tg.Get(kv.DB, string(kv.Key))) {
+			same := vfc20.SameVal(want, tg.Get(kv.DB, string(kv.Key)))
+			if !same && o.Restore && o.MaxBuf > 0 {
+				// a value the loader split into chunks (lowered threshold) is replayed by expanded commands also with
+				// restore on (IsSplited): the complete value then has the expanded representation on the double
+				same = vfc20.SameVal(vfc20.ExpectVal(kv, false, vfc20.BubbleNowMs), tg.Get(kv.DB, string(kv.Key)))
+			}
+			if !same {
 				res.AllApplied = false
 				res.Missing = append(res.Missing, string(kv.Key))
 			}
@@ -1013,7 +1044,13 @@ func vfC04SendCached(t *testing.T, kvs []vfc20.KV, data []byte, size int64, o vf
 		res.AllApplied = true
 		for _, kv := range kvs {
 			want := vfc20.ExpectVal(kv, o.Restore, vfc20.BubbleNowMs)
-			if !vfc20.SameVal(want, tg.Get(kv.DB, string(kv.Key))) {
+			same := vfc20.SameVal(want, tg.Get(kv.DB, string(kv.Key)))
+			if !same && o.Restore && o.MaxBuf > 0 {
+				// a value the loader split into chunks (lowered threshold) is replayed by expanded commands also with
+				// restore on (IsSplited): the complete value then has the expanded representation on the double
+				same = vfc20.SameVal(vfc20.ExpectVal(kv, false, vfc20.BubbleNowMs), tg.Get(kv.DB, string(kv.Key)))
+			}
+			if !same {
 				res.AllApplied = false
 				res.Missing = append(res.Missing, string(kv.Key))
 			}
@@ -1097,7 +1134,34 @@ func vfC04FanOp(data []byte, o vfC04Opts, scen string) string {
 	if len(rs) > 0 {
 		r = strings.Join(rs, ",")
 	}
+	if o.Cluster && o.Bisync {
+		// the global lane (Model/RdbFanoutG.withGlobal): FUNCTION / AUX objects go to one more worker
+		gs := vfC04Globals(data)
+		g := "."
+		if len(gs) > 0 {
+			g = strings.Join(gs, ",")
+		}
+		return fmt.Sprintf("c04fang n=%d c0=%d cw=%d routes=%s glob=%s term=done scen=%s", o.Parallel, o.PipeSize, cw, r, g, scen)
+	}
 	return fmt.Sprintf("c04fan n=%d c0=%d cw=%d routes=%s term=done scen=%s", o.Parallel, o.PipeSize, cw, r, scen)
+}
+
+// vfC04Globals: per entry the real loader produces, 1 when sendRdb's distributor hands it to the global lane of cluster
+// bidirectional replay (bisyncRdbIsGlobalEntry: FUNCTION and AUX objects), else 0
+func vfC04Globals(data []byte) []string {
+	bins, err := vfc20.Load(data, 0, "7.0.0")
+	if err != nil {
+		return nil
+	}
+	var out []string
+	for _, e := range bins {
+		g := "0"
+		if e.ObjectParser != nil && (e.ObjectParser.Type() == rdb.RdbObjectFunction || e.ObjectParser.Type() == rdb.RdbObjectAux) {
+			g = "1"
+		}
+		out = append(out, g)
+	}
+	return out
 }
 
 // ---------------------------------------------------------------- the test
@@ -1354,12 +1418,30 @@ func TestVerifC04(t *testing.T) {
 		// every single-byte XOR
 		for pos := 0; pos < len(data); pos++ {
 			toks = toks[:0]
+			// one request to the worker child for the 255 variants of this position; if the child dies on the batch, one by
+			// one (vfC04ParseGuarded names the input)
+			var batch []string
+			{
+				vals := make([]byte, 0, 255)
+				for m := 1; m <= 255; m++ {
+					vals = append(vals, data[pos]^byte(m))
+				}
+				mark(fmt.Sprintf("xors %s %d", f.Name, pos))
+				if rp, died, _ := vfC04W.call(vfC04Req{Kind: "xsets", Data: vfutil.Hex(data), Size: int64(pos), Segs: vfutil.Hex(vals)}); died == "" {
+					batch = strings.Split(rp.Tok, ",")
+				}
+			}
 			for m := 1; m <= 255; m++ {
 				g := append([]byte(nil), data...)
 				g[pos] ^= byte(m)
-				mark(fmt.Sprintf("xor %s %d %d", f.Name, pos, m))
 				sup, risky := vfc20.Classify(g)
-				tok := vfC04ParseGuarded(s, g, risky)
+				var tok string
+				if len(batch) == 255 {
+					tok = batch[m-1]
+				} else {
+					mark(fmt.Sprintf("xor %s %d %d", f.Name, pos, m))
+					tok = vfC04ParseGuarded(s, g, risky)
+				}
 				s.Count("parse_alterations")
 				if strings.HasPrefix(tok, "d") {
 					// accepted although altered: only the "footer became all zero" exception is legitimate
@@ -1695,7 +1777,8 @@ func TestVerifC04(t *testing.T) {
 		o.Restore = si%2 == 0
 		o.Resume = si%3 != 1 // in-memory checkpoint in a third of the scenarios
 		o.Lua = string(f.Opts.Lua)
-		tie := !sc.cluster // the Lean event system has no global lane
+		o.Pol = vfC04Pols[(si/2)%len(vfC04Pols)]
+		tie := true // cluster scenarios are tied through the global-lane instance of the event system (c04fang)
 		mark("clean " + o.String())
 		clean := vfC04Send(t, f.KVs, data, int64(len(data)), o)
 		vfC04Monitor(s, "clean", f.Name, data, o, clean)
@@ -1840,6 +1923,17 @@ func TestVerifC04(t *testing.T) {
 					mark("big fail " + of.String())
 					r := vfC04Send(t, f.KVs, data, int64(len(data)), of)
 					vfC04Monitor(s, "target-error", f.Name, data, of, r)
+					// the same single-shot error (the target is healthy again afterwards) with a reply of one of the "temporarily
+					// unavailable" families, under every keyExists policy: a half-written value must never count as applied
+					for pi, pol := range vfC04Pols {
+						of := o
+						of.Pol = pol
+						of.FailAt, of.Msg = k, 4+(k+pi+int(vfutil.Seed()))%(len(vfC04FailMsgs)-4)
+						mark("big fail family " + of.String())
+						r := vfC04Send(t, f.KVs, data, int64(len(data)), of)
+						vfC04Monitor(s, "target-error-family", f.Name, data, of, r)
+						s.Count("fan_big_value_family_points")
+					}
 					op := o
 					op.FailFrom = k + 1
 					r = vfC04Send(t, f.KVs, data, int64(len(data)), op)
@@ -1937,6 +2031,9 @@ func TestVerifC04(t *testing.T) {
 			s.Count("alloc_points")
 		}
 	}
+
+	// ------------------------------------------------ x. session 4: extended grammar, LZF buffer, split values (vf_c04x_test.go)
+	vfC04Extended(t, s, mark, rnd, maxVer, phase)
 
 	phase("4")
 	// ------------------------------------------------ 4. thorough: many generated files, random positions
